@@ -34,8 +34,11 @@ class C16Saturate(Scenario):
                 cfg["hash"] = "sim_sq"
         else:
             cfg = {"sizing": {"width": rng.between(1, 3), "depth": rng.between(1, 3)},
-                   "cls": rng.choice(("CountMinSketch", "CountMeanSketch", "HeavyHitters", "StreamThreshold")),
+                   "cls": rng.choice(("CountMinSketch", "CountMeanSketch", "CountMeanMinSketch", "HeavyHitters",
+                                      "StreamThreshold")),
                    "param": rng.between(1, 5)}
+            if cfg["cls"] == "CountMeanMinSketch" and cfg["sizing"]["width"] == 1:
+                cfg["sizing"]["width"] = 2  # the mean-min query divides by width-1
             cfg.update(structs.draw_hash(rng, 3))
         cfg.update({"kind": kind, "universe": 3, "steps": rng.between(2, self.max_steps)})
         return cfg
@@ -123,7 +126,23 @@ class C16Saturate(Scenario):
             raise Violation("call_raised", f"{what} raised {type(e).__name__}: {e}; cells changed before the exception: "
                                            f"{half}", sig)
 
+    def ret_is_current(self, ret, k, what, sig):
+        """the call returns the value of the PINNED state: what a query of the same key says right afterwards"""
+        if self.kind == "cbf":
+            return
+        now = self.call(lambda: self.o.check(self.key(k)), "check", sig)
+        if ret != now:
+            raise Violation("return_not_pinned", f"{what} returned {ret}; check() right afterwards says {now} "
+                                                 f"(element total {self.o.elements_added})", sig)
+
     def compare(self, what, sig):
+        second = getattr(self, "second", None)
+        if second is not None:
+            # the second operand of the last join is still alive: nothing the receiver does may reach it
+            got2 = self.read_cells(second[0])
+            if got2 != (second[1], second[2]) or second[0].elements_added != second[2]:
+                raise Violation("operand_aliased", f"after {what}: the second operand of an earlier join changed "
+                                                   f"(cells/total {got2} expected {(second[1], second[2])})", sig)
         try:
             cells, total = self.read_cells()
         except Exception as e:
@@ -169,11 +188,12 @@ class C16Saturate(Scenario):
             self.total = min(self.total + n, U64) if cbf else clamp(self.total + n, I64MIN, I64MAX)
             self.out[k] = self.out.get(k, 0) + n
             ret = self.call(lambda: o.add(self.key(k), n), f"add({k}, {n})", sig)
+            self.ret_is_current(ret, k, f"add({k}, {n})", sig)
             smallest = min(self.cells[p] for p in vis)
             if smallest == lim_hi:
                 ctx.fault("saturated_high")
                 ctx.nontrivial = True
-                if not cbf and self.cfg["cls"] == "CountMeanSketch":
+                if not cbf and self.cfg["cls"] in ("CountMeanSketch", "CountMeanMinSketch"):
                     pass  # mean mode: the returned value is a mean, not the smallest cell
                 elif ret != lim_hi:
                     raise Violation("return_not_pinned", f"add({k}, {n}) returned {ret}; the key's smallest cell is pinned "
@@ -211,11 +231,12 @@ class C16Saturate(Scenario):
                     self.cells[p] = clamp(self.cells[p] - n, I32MIN, I32MAX)
                 self.total = clamp(self.total - n, I64MIN, I64MAX)
                 ret = self.call(lambda: o.remove(self.key(k), n), f"remove({k}, {n})", sig)
+                self.ret_is_current(ret, k, f"remove({k}, {n})", sig)
                 smallest = min(self.cells[p] for p in vis)
                 if smallest == I32MIN:
                     ctx.fault("saturated_low")
                     ctx.nontrivial = True
-                    if self.cfg["cls"] != "CountMeanSketch" and ret != I32MIN:
+                    if self.cfg["cls"] not in ("CountMeanSketch", "CountMeanMinSketch") and ret != I32MIN:
                         raise Violation("return_not_pinned", f"remove({k}, {n}) returned {ret}; smallest cell pinned at "
                                                              f"{I32MIN}", sig)
             self.compare(f"remove({k}, {n})", sig)
@@ -276,6 +297,7 @@ class C16Saturate(Scenario):
                         ctx.nontrivial = True
                 self.cells = got
                 self.total = clamp(self.total + tot2, I64MIN, I64MAX)
+                self.second = (second, cells2, tot2)
                 self.compare("join", sig)
         elif op == "restart":
             b = self.call(lambda: bytes(o), "bytes()", sig)
